@@ -1,0 +1,30 @@
+//go:build verif
+
+package verifhooks
+
+import (
+	"time"
+
+	"github.com/sirupsen/logrus"
+
+	"github.com/atlassian/gostatsd/internal/cluster/nodes"
+)
+
+// NodePicker is internal/cluster/nodes.NodePicker.
+type NodePicker = nodes.NodePicker
+
+// NodeTracker is internal/cluster/nodes.NodeTracker.
+type NodeTracker = nodes.NodeTracker
+
+// RedisClient is internal/cluster/nodes.RedisClient.
+type RedisClient = nodes.RedisClient
+
+// NewRedisNodeTracker is internal/cluster/nodes.NewRedisNodeTracker.
+func NewRedisNodeTracker(logger logrus.FieldLogger, picker NodePicker, client RedisClient, namespace, nodeId string, updateInterval, expiryInterval time.Duration) NodeTracker {
+	return nodes.NewRedisNodeTracker(logger, picker, client, namespace, nodeId, updateInterval, expiryInterval)
+}
+
+// NewConsistentNodePicker is internal/cluster/nodes.NewConsistentNodePicker.
+func NewConsistentNodePicker(self string, numReplicas int) NodePicker {
+	return nodes.NewConsistentNodePicker(self, numReplicas)
+}
